@@ -37,9 +37,8 @@ func randomQueueCheck(r *rig.Rig, ctx sdk.Context) []string {
 		if h < H {
 			out = append(out, fmt.Sprintf("queue-entry-overdue: request %s queued for height %d after block %d", id, h, H))
 		}
-		if prev, dup := seen[id]; dup {
-			out = append(out, fmt.Sprintf("request-queued-twice: request %s at heights %d and %d", id, prev, h))
-		}
+		// the same id at two heights is not an inconsistency: ids are hash(request height, consumer), so two requests of one
+		// consumer made in one block with different intervals share their id by design and are two queue items
 		seen[id] = h
 		if want := hex.EncodeToString(randomtypes.GenerateRequestID(rq)); want != id {
 			out = append(out, fmt.Sprintf("queue-key-differs-from-request: key %s holds request with id %s", id, want))
@@ -97,6 +96,9 @@ func runBlockProc(run *ev.Run, c int) {
 					a := r.Acc(i)
 					extra = append(extra, r.Mk(a, &bpTag{Kind: "burst-random"}, &randomtypes.MsgRequestRandom{BlockInterval: uint64(iv), Consumer: a.Addr.String()}))
 				}
+				// one consumer, one block, two requests with different intervals (same request id, two due heights)
+				tw := r.Acc(2)
+				extra = append(extra, r.Mk(tw, &bpTag{Kind: "twin-random"}, &randomtypes.MsgRequestRandom{BlockInterval: uint64(iv) + 2, Consumer: tw.Addr.String()}))
 			}
 			if h > burstAt+1 {
 				burstAt = 0
